@@ -47,7 +47,7 @@ def rule_drain(chk, repo, rid='C06.a'):
 
     # ------------------------------------------------------------------ C06.a
     chk.rule(rid, 'R-DRAIN: accumulator filled in the transcript loop is flushed on every path to loop exit', 5)
-    loops = G.find_for(fn, iter_text='tx_sorted')
+    loops = [l for l in G.find_for(fn) if unparse(l.iter) == 'tx_sorted' or re.match(r'enumerate\(tx_sorted\b', unparse(l.iter))]
     if len(loops) != 1:
         from sa.model import AnalysisError
         raise AnalysisError(f"anchor={ENTRY}: loop over tx_sorted not found ({len(loops)})")
